@@ -10,10 +10,11 @@ Correspondence, per (mode, initial content, call sequence):
   (iii) every backend         == io.FileIO (the property's oracle, evaluated directly):
         MemoryFS, OSFS (buffering=0), RawWrapper over both, zip/tar members (mode r);
         OSFS with default buffering == Python's own buffered open() of the same mode.
-A backend that differs from io.FileIO is a failing input of the property unless the first
-deviating call (computed by the Lean model, `file.dev`) is one of the two documented tolerances
-(vacuous readline(0) / writelines([]) on a handle without permission) or the open finding
-`append_empty_write`.
+A backend that differs from io.FileIO is a failing input of the property unless the session is
+admitted by the reference with its documented tolerance (`IoRef.admits`: only readline(0) on a
+closed/unreadable handle and writelines([]) on a read-only handle may be rejected instead — the
+calls are identified by the Lean model through `file.dev` — and nothing else may differ).  Open
+findings, if any, come only from known_findings.json through `rep.match_known`.
 """
 from __future__ import annotations
 
@@ -329,16 +330,6 @@ def first_diff(a, b):
     return len(ta)
 
 
-def load_additions(rep):
-    """findings recorded by this package but not yet merged into known_findings.json"""
-    path = os.path.join(vlib.VERIF, "findings", "known_findings_additions.json")
-    if os.path.exists(path):
-        have = {f["signature"] for f in rep.open_findings}
-        for f in json.load(open(path)):
-            if f.get("property") == rep.prop_id and f["signature"] not in have:
-                rep.open_findings.append(f)
-
-
 KIND = {"mem": "MemoryFS", "rw-mem": "MemoryFS", "os0": "OSFS", "osbuf": "OSFS", "rw-os0": "OSFS",
         "zip-r": "ZipFS", "tar-r": "TarFS"}
 
@@ -363,23 +354,49 @@ def ops_from_case(c):
     return out
 
 
+REJECTION = {"readline_zero": ("Eclosed", "Enotpermitted"), "writelines_empty_readonly": ("Enotpermitted",)}
+
+
+def admitted(impl, ref, devs):
+    """`IoRef.admits` of the Lean model, evaluated on the real traces: every call returns what
+    io.FileIO returns or — only where the Lean model says the call is one of the two tolerated
+    vacuous calls (`file.dev`) — the allowed rejection; tell() after every call and the final bytes
+    are io.FileIO's.  Returns the index of the first call that is not admitted (len = final bytes),
+    or None when the session is admitted."""
+    ti, fi = parse(impl)
+    tr, fr = parse(ref)
+    if ti is None or tr is None:
+        return None if impl == ref else -1
+    if len(ti) != len(tr) or len(devs) != len(tr):
+        return 0
+    for k, (x, y) in enumerate(zip(ti, tr)):
+        if x == y:
+            continue
+        xo, xt = x.split("@")
+        yo, yt = y.split("@")
+        if devs[k] in TOLERATED and xo in REJECTION[devs[k]] and xt == yt and not yo.startswith("E"):
+            continue
+        return k
+    return None if fi == fr else len(ti)
+
+
 def judge_backend(rep, target, mode, init, ops, impl, ref, devs, note_ref="io.FileIO"):
-    """impl differs from the oracle `ref`: finding class, tolerated class, or a new violation"""
+    """impl differs from the oracle `ref`: inside the documented tolerance, or a violation"""
     rep.disagreements_checked += 1
-    i = first_diff(impl, ref)
-    j = next((k for k, d in enumerate(devs) if d != "-"), None)
-    cls = devs[j] if j is not None and (i == -1 or j <= i) and KIND[target] == "MemoryFS" else None
-    if cls in TOLERATED:
-        rep.count("tolerated:" + cls)
-        return
-    if cls is not None:
-        sig = "C16/%s/%s" % (KIND[target], cls)
+    if KIND[target] == "MemoryFS":
+        i = admitted(impl, ref, devs)
+        if i is None:
+            for d in set(devs) & TOLERATED:
+                rep.count("tolerated:" + d)
+            return
     else:
-        sig = "C16/%s/%s/%s" % (KIND[target], mode, tok(ops[i]).split(":")[0] if 0 <= i < len(ops) else "final-bytes")
+        i = first_diff(impl, ref)
+    sig = "C16/%s/%s/%s" % (KIND[target], mode, tok(ops[i]).split(":")[0] if 0 <= i < len(ops) else "final-bytes")
     if rep.match_known(sig) is None and len(rep.violations) >= MAXVIOL:
         return
     rep.violation(
-        case_of(target, mode, init, ops, impl=impl, oracle=ref, first_diff=i, deviation_class=cls),
+        case_of(target, mode, init, ops, impl=impl, oracle=ref, first_diff=i,
+                tolerated_calls=[k for k, d in enumerate(devs) if d != "-"]),
         "%s file object, mode %r on %r, calls %s: got %s, %s gives %s"
         % (target, mode, init, [tok(o) for o in ops], impl, note_ref, ref),
         found_input=True, signature=sig)
@@ -417,7 +434,7 @@ def check_session(rep, T, targets, mode, init, ops, replies, stats=True):
         if target == "mem" and impl != memfile:
             # (ii) the transcription broke: is the code still like io.FileIO here?
             rep.disagreements_checked += 1
-            if impl != ref and devs.count("-") == len(devs):
+            if impl != ref and admitted(impl, ref, devs) is not None:
                 judge_backend(rep, target, mode, init, ops, impl, ref, devs)
             elif len(rep.violations) < MAXVIOL:
                 rep.violation(case_of(target, mode, init, ops, model=memfile, impl=impl, oracle=ref),
@@ -517,7 +534,7 @@ REGRESSIONS = [
     ("a", b"0123", (("seek", 0, 0), ("write", b"X"))),
     ("r", b"0123", (("truncate", 0),)),
     ("r", b"0123", (("writelines", (b"X",)),)),
-    # the open finding (append_empty_write) and the two tolerances
+    # c4647cd (zero-length append write) and the two tolerances
     ("a+", b"0123", (("seek", 0, 0), ("write", b""), ("read", None))),
     ("w", b"", (("readline", 0),)),
     ("r", b"", (("writelines", ()),)),
@@ -760,7 +777,6 @@ def check_modes(rep, drv, T):
 
 def run(rep, tier, seed, deep=False):
     drv = vlib.Driver()
-    load_additions(rep)
     quick = tier == "quick"
     targets = TARGETS
     n3, nlong, nbio = (20000, 1500, 4000) if quick else (250000, 20000, 40000)
@@ -798,7 +814,6 @@ def run(rep, tier, seed, deep=False):
 
 def replay(rep, case):
     vlib.repo_on_path()
-    load_additions(rep)
     c = case["case"]
     if "ops" not in c:
         print("mode case:", c)
